@@ -133,7 +133,52 @@ func maxStmtNodes(l []*gt.T, depth int, maxNodes, maxDepth *int) {
 	}
 }
 
+// after-callee-exit: a script reached through use() (directly or one level
+// further down) calls exit() - which ends that script only - and the CALLER
+// then runs on, into a loop that never ends by itself. The host's signal has
+// to stop that loop like any other.
+func c14AfterExit(c *mon.Ctx) c14Case {
+	cs := c14Case{Stmts: map[string][]*gt.T{}, Srcs: map[string]string{}, Spin: true}
+	r := c.Sub("after-exit")
+	deep := r.Intn(2) == 0
+	leaf := []*gt.T{gt.Call("p", gt.Str("leaf")), gen.ExitStmt(r), gt.Call("p", gt.Str("never"))}
+	if r.Intn(3) == 0 {
+		leaf = []*gt.T{gt.ForIn("e", gt.List(gt.Int(1), gt.Int(2)), gt.Call("p", gt.Ident("e")), gt.If(gt.Bin("==", gt.Ident("e"), gt.Int(1)), gen.ExitStmt(r)))}
+	}
+	use := func(n string) *gt.T {
+		if r.Intn(3) == 0 {
+			return gt.If(gt.Bool(true), gt.Call("use", gt.Str(n)))
+		}
+		return gt.Call("use", gt.Str(n))
+	}
+	spin := c14Spins[r.Intn(len(c14Spins))]()
+	if deep {
+		cs.Stmts["s2.p"] = leaf
+		cs.Stmts["s1.p"] = []*gt.T{gt.Call("p", gt.Str("s1")), use("s2.p"), gt.Call("p", gt.Str("s1-after"))}
+		if r.Intn(2) == 0 {
+			// the loop is in the middle script
+			cs.Stmts["s1.p"] = append(cs.Stmts["s1.p"], spin)
+			spin = gt.Call("p", gt.Str("main-after"))
+		}
+	} else {
+		cs.Stmts["s1.p"] = leaf
+	}
+	cs.Stmts["main.p"] = []*gt.T{gt.Call("p", gt.Str("m0")), use("s1.p"), gt.Call("p", gt.Str("m1")), spin, gt.Call("p", gt.Str("end"))}
+	mn, md := 1, 0
+	for n, st := range cs.Stmts {
+		st = gt.ParenthesizeStmts(st)
+		cs.Stmts[n] = st
+		cs.Srcs[n] = gt.Print(st, nil)
+		maxStmtNodes(st, 0, &mn, &md)
+	}
+	cs.Grace = int64(2*mn + 8*md + 16)
+	return cs
+}
+
 func (c14) build(c *mon.Ctx, v2 bool) c14Case {
+	if !v2 && c.R.Intn(6) == 0 {
+		return c14AfterExit(c)
+	}
 	cs := c14Case{V2: v2, Stmts: map[string][]*gt.T{}, Srcs: map[string]string{}}
 	names := []string{"main.p"}
 	if !v2 {
